@@ -55,12 +55,27 @@ def search(ctx, focus=(), deep=1):
     known = [f for f in vlib.load_known().get('findings', []) if f.get('property') == 'C08']
     frames = []
     for d in decs:
-        try:
-            code = protos.encode(d, protos.sample_params(d, r), repeat_count=1)
-            for f in protos.frames(code)[:2]:
-                frames.append((d.name, f))
-        except Exception:
-            pass
+        # several keys per protocol (all-zero, all-one and a random one): which path a damaged frame takes depends on the
+        # bits next to the damage
+        seenf = set()
+        for p_ in protos.corner_params(d) + [protos.sample_params(d, r)]:
+            try:
+                code = protos.encode(d, p_, repeat_count=1)
+                for f in protos.frames(code)[:2]:
+                    # the frame, and its pieces when it has interior gaps (two-half protocols: a receiver delivers each half)
+                    pieces, piece = [], []
+                    for x in f:
+                        piece.append(x)
+                        if len(piece) > 3 and x < -2000:
+                            pieces.append(piece); piece = []
+                    if piece:
+                        pieces.append(piece)
+                    for g in [f] + (pieces if len(pieces) > 1 else []):
+                        if tuple(g) not in seenf:
+                            seenf.add(tuple(g))
+                            frames.append((d.name, g))
+            except Exception:
+                pass
     vals = sorted({abs(x) for _, f in frames for x in f[:6]})[:200] or [500]
     inputs = []
     for w in known:
@@ -198,20 +213,23 @@ def stream_liveness(ctx, env, protos, r, frames):
 
 
 def check(ctx):
-    ctx.rule = ('proof: for ALL tables, tolerances, instance states and integer lists the modelled engine (CodeWrapper general path + IrProtocolBase.decode) returns or raises a '
+    ctx.rule = ('proof: C08_wrapper for the protocols whose traced decode() trees meet the kernel-checked obligation c08OK: an instance started without history and fed ANY sequence of ANY integer lists '
+                'answers every call with a code or a library error (invariant: the held code is a code of the protocol); for ALL tables, tolerances, instance states and integer lists the modelled engine (CodeWrapper general path + IrProtocolBase.decode) returns or raises a '
                 'library error (theorem, no obligations needed); correspondence: exception classes of real CodeWrapper/base decode vs model on damaged and garbage input; '
                 'search: every real decoder on mutations of its own frames + sampled cross-protocol mutations + garbage + short lists + a 3000-element list with a 2 s alarm per call, '
                 'argument unchanged; the dispatcher with all protocols enabled. non-trivial = input longer than one element')
-    tabs, ok = engine_prove.prove(ctx, MODULES, with_obligations=False)
+    tabs, ok = engine_prove.prove(ctx, MODULES, with_obligations=False, with_wrappers=True, wrap_kinds=('c08',))
     import fingerprint
     changed_p, changed_e = fingerprint.changed()
     r = vlib.rng('c08corr')
     try:
         ec.standard_correspondence(ctx, r, per_proto=2 if not ctx.thorough else 6, focus=changed_p)
+        from props import wrap_common
+        wrap_common.correspondence(ctx, vlib.rng('c08wrap'), tabs, getattr(ctx, 'winfo', {}), per_proto=3 if not ctx.thorough else 12, focus=changed_p | engine_prove.failed_protocols(ctx))
     except Exception:
         import traceback
         ctx.oblige('correspondence_driver', False, traceback.format_exc()[-500:])
-    search(ctx, changed_p, deep=3 if changed_e else 1)
+    search(ctx, changed_p | engine_prove.failed_protocols(ctx), deep=3 if changed_e else 1)
 
 
 def replay(path):
